@@ -5,12 +5,14 @@ from checks import memref
 from checks.c05 import MemSpec, W_PTR
 from checks.c14 import W_ARR
 
-# pool: S 0-3, W 4-6, U 7-9, A 10-13.  Per kind: original O, stray copy X, partner P.
-POOL = ['S'] * 4 + ['W'] * 3 + ['U'] * 3 + ['A'] * 4
+# pool: S 0-3, W 4-6, U 7-9, A 10-13, G 14-16.  Per kind: original O, stray copy X, partner P.
+# G = a struct cstl_guarded_ptr used directly as an object (cstl_guarded_ptr_init / set / get / get_const / copy /
+# swap); its "reset" is init (it owns nothing), its states are NULL and non-NULL.
+POOL = ['S'] * 4 + ['W'] * 3 + ['U'] * 3 + ['A'] * 4 + ['G'] * 3
 HDR = ['pool ' + ' '.join(POOL), 'ext 40 40']
-SLOT = {'S': (0, 1, 2), 'W': (4, 5, 6), 'U': (7, 8, 9), 'A': (10, 11, 12)}
-RESET = {'S': 'sreset', 'W': 'wreset', 'U': 'ureset', 'A': 'areset'}
-INIT = {'S': 'sinit', 'W': 'winit', 'U': 'uinit', 'A': 'ainit'}
+SLOT = {'S': (0, 1, 2), 'W': (4, 5, 6), 'U': (7, 8, 9), 'A': (10, 11, 12), 'G': (14, 15, 16)}
+RESET = {'S': 'sreset', 'W': 'wreset', 'U': 'ureset', 'A': 'areset', 'G': 'ginit'}
+INIT = {'S': 'sinit', 'W': 'winit', 'U': 'uinit', 'A': 'ainit', 'G': 'ginit'}
 
 # states of the original O (the copy X is taken afterwards)
 STATES = {
@@ -20,6 +22,7 @@ STATES = {
     'U': {'empty': [], 'owning': ['ualloc O 8 4'], 'owning-nocb': ['ualloc O 8 -1']},
     'A': {'empty': [], 'owning': ['aalloc O 5 4'], 'sliced': ['aalloc 13 5 4', 'aslice 13 1 3 O'],
           'sliced-in-place': ['aalloc O 5 4', 'aslice O 2 4 O'], 'external': ['aset O 0 5 4']},
+    'G': {'empty': [], 'non-null': ['gset O 2'], 'non-null-copied': ['gset P 3', 'gcopy O P']},
 }
 # roles of the partner P of a two-argument entry point: the original itself,
 # another sharer of the same block, an unrelated owning object, an empty object
@@ -28,6 +31,7 @@ PARTNER = {
     'W': {'orig': None, 'sharer': ['wfrom P 0'], 'unrelated': ['salloc 3 8 1', 'wfrom P 3'], 'empty': []},
     'U': {'orig': None, 'unrelated': ['ualloc P 8 9'], 'empty': []},
     'A': {'orig': None, 'sharer': ['aunslice O P'], 'unrelated': ['aalloc P 5 4'], 'empty': []},
+    'G': {'orig': None, 'unrelated': ['gset P 3'], 'empty': ['ginit P']},
 }
 ONE = {
     'S': ['salloc X 8 1', 'salloc X 0 1', 'sget X', 'sunique X', 'sreset X', 'sshare X X', 'sswap X X'],
@@ -35,12 +39,15 @@ ONE = {
     'U': ['ualloc X 8 1', 'ualloc X 0 -1', 'uget X', 'urelease X', 'ureset X'],
     'A': ['aalloc X 3 4', 'aalloc X 0 0', 'aset X 1 5 4', 'arelease X', 'adata X', 'aat X 0', 'aat X 7', 'areset X',
           'aslice X 0 0 X', 'aunslice X X'],
+    # gcopy dst src: only the source is read (through the guard)
+    'G': ['gget X', 'ggetc X', 'gswap X X', 'gcopy X X'],
 }
 TWO = {
     'S': ['sshare X P', 'sshare P X', 'sswap X P', 'sswap P X'],
     'W': ['wswap X P', 'wswap P X'],
     'U': ['uswap X P', 'uswap P X'],
     'A': ['aslice X 0 1 P', 'aslice P 0 1 X', 'aslice X 0 0 P', 'aunslice X P', 'aunslice P X'],
+    'G': ['gswap X P', 'gswap P X', 'gcopy P X'],
 }
 # two-argument entry points across kinds: (stray kind, template, partner kind, partner set-ups by role)
 CROSS = [
@@ -49,13 +56,20 @@ CROSS = [
     ('W', 'wfrom X Q', {'owner-of-same': None, 'unrelated': ['salloc Q 8 1'], 'empty': []}),
     ('W', 'wlock X Q', {'owner-of-same': None, 'unrelated': ['salloc Q 8 1'], 'empty': []}),
 ]
-UNGUARDED = {'S': ['sinit X'], 'W': ['winit X'], 'U': ['uinit X'], 'A': ['ainit X', 'asize X']}
+# for G: init, set and being the *destination* of copy overwrite the object and stamp it with its own address
+# ("regardless of its current state"): no abort, and the object is usable again afterwards
+UNGUARDED = {'S': ['sinit X'], 'W': ['winit X'], 'U': ['uinit X'], 'A': ['ainit X', 'asize X'],
+             'G': ['ginit X', 'gset X 1', 'gset X 0', 'gcopy X O', 'gcopy X P']}
+# ... which the next calls on the former stray copy show
+REVIVED = {'G': ['gget X', 'ggetc X', 'gswap X O', 'gget X', 'gcopy P X', 'gget P']}
 # what the original must still be able to do afterwards
 ORIG = {
     'S': ['sget O', 'sunique O', 'sshare O P', 'sget P', 'wfrom 6 O', 'sreset O', 'wlock 6 O', 'sget O', 'sreset P', 'sreset O'],
     'W': ['wlock O 2', 'sget 2', 'wswap O P', 'wswap O P', 'wreset O', 'wfrom O 2'],
     'U': ['uget O', 'uswap O P', 'uget P', 'uswap P O', 'ureset O', 'ualloc O 8 2', 'urelease O'],
     'A': ['asize O', 'adata O', 'aunslice O P', 'asize P', 'arelease O', 'areset O', 'aalloc O 2 4', 'aat O 1', 'aslice O 0 1 P'],
+    'G': ['gget O', 'ggetc O', 'gswap O P', 'gget P', 'gcopy P O', 'gget P', 'gset O 3', 'ggetc O', 'gswap O O', 'gget O',
+          'ginit O', 'gget O'],
 }
 
 
@@ -64,7 +78,7 @@ def matrix():
 
     def add(name, ops):
         cases.append(Case(name.replace(' ', '_'), HDR, ops, 'matrix'))
-    for k in 'SWUA':
+    for k in 'SWUAG':
         o, x, p = SLOT[k]
 
         def sub(t, q=None):
@@ -103,7 +117,7 @@ def matrix():
                     add('cross %s %s %s %s' % (k, sname, role, tmpl), ops + tail)
             orig = [sub(q) for q in ORIG[k] if not (k == 'A' and sname == 'empty' and q.startswith(('aunslice', 'asize P')))]
             for e in UNGUARDED[k]:
-                add('unguarded %s %s %s' % (k, sname, e), pre + [copy, sub(e)] + orig)
+                add('unguarded %s %s %s' % (k, sname, e), pre + [copy, sub(e)] + [sub(q) for q in REVIVED.get(k, [])] + orig)
             add('original %s %s' % (k, sname), pre + [copy] + orig + ['%s %d' % (INIT[k], x)] + orig)
             add('copy2 %s %s' % (k, sname), pre + [copy, sub(ORIG[k][0]), 'straycopy %d %d' % (x, p),
                                                    sub(ONE[k][0].replace('X', 'P'))] + tail)
@@ -113,30 +127,43 @@ def matrix():
 W_ALL = dict(W_PTR)
 W_ALL.update(W_ARR)
 W_ALL.update(straycopy=6, uinit=1, sinit=1, winit=1, ainit=1)
+W_ALL.update(ginit=1, gset=3, gget=2, ggetc=2, gcopy=4, gswap=3)
 
 
 class C20(MemSpec):
     pid = 'C20'
     rule = ('cases = matrix (every guarded entry point x argument position x object state {empty, owning, shared, with weak, '
-            'weak-only, sliced, external}, on a stray copy, also after the original let go; unguarded entry points; the original '
-            'keeps working) + closure of the Coq model over 2 shared, 1 weak, 2 unique, 2 array objects with stray copies (state '
-            'budget) + seeded random histories with stray copies over 11 objects; the C05 and C14 runs (no stray copies) must '
-            'not abort either; non-trivial = at least two completed operations')
+            'weak-only, sliced, external; for guarded pointer objects NULL, non-NULL, non-NULL obtained by copy}, on a stray copy, '
+            'also after the original let go; unguarded entry points (for guarded pointer objects init, set and the destination of '
+            'copy, after which the object must be usable again); the original keeps working) + closure of the Coq model over 2 '
+            'shared, 1 weak, 2 unique, 2 array objects with stray copies and over 3 guarded pointer objects with values {NULL, 1, 2} '
+            '(state budgets) + seeded random histories with stray copies over 17 objects; every second case that calls an accessor '
+            'with a *_const twin is replayed through the const variant (header constapi 1); the C05 and C14 runs (no stray copies) '
+            'must not abort either; non-trivial = at least two completed operations')
     trusted = ['modelled, not verified: a bitwise copy is the copy of the model record of the slot, stored self-address included; '
                'the address of a pool slot is its index']
-    assumptions_text = ['a stray copy overwrites only an empty object or another stray copy, and is not copied back onto the address '
+    assumptions_text = ['a stray copy overwrites only an empty object or another stray copy (or a guarded pointer object, which owns '
+                        'nothing), and is not copied back onto the address '
                         'stored in it (both would be a leak / resurrection the guard cannot see)',
                         'objects are used at their C type']
 
     def closure(self, tier):
-        cases, st = self.closures([('stray', 250 if tier == 'quick' else 2500)])
-        return matrix() + cases, st
+        cases, st = self.closures([('stray', 250 if tier == 'quick' else 2500), ('guarded', 40 if tier == 'quick' else 1000)])
+        cases = matrix() + cases
+        kv = memref.const_variants(cases, every=2)
+        st['constapi_replays'] = len(kv)
+        return cases + kv, st
 
     def random_cases(self, tier, seed):
         rnd = random.Random(seed * 7919 + 20)
         n = 400 if tier == 'quick' else 6000
-        return [memref.gen_case(rnd, 'rnd%d' % i, POOL, [40], rnd.choice([8, 16, 30]), W_ALL, p_keep_abort=0.6, benign=True)
-                for i in range(n)]
+        cases = [memref.gen_case(rnd, 'rnd%d' % i, POOL, [40], rnd.choice([8, 16, 30]), W_ALL, p_keep_abort=0.6, benign=True)
+                 for i in range(n)]
+        # histories over guarded pointer objects only (every operation lands on one of three objects)
+        wg = dict(straycopy=4, ginit=1, gset=3, gget=2, ggetc=2, gcopy=4, gswap=3)
+        cases += [memref.gen_case(rnd, 'rndg%d' % i, ['G', 'G', 'G'], [], rnd.choice([6, 12, 20]), wg, p_header_fail=0.0,
+                                  p_keep_abort=0.6) for i in range(n // 4)]
+        return cases + memref.const_variants(cases, every=2)
 
 
 SPEC = C20()
@@ -144,7 +171,8 @@ SPEC = C20()
 MANIFEST = dict(
     text='Coq theorems (Properties_C20.v) over the executable model of memory.c / array.c with the stored self-address explicit: '
          'every entry point except the *_init functions and cstl_array_size aborts when any of its object arguments does not carry '
-         'its own address, before anything else happens to that object, in every state; histories that use only library functions '
+         'its own address, before anything else happens to that object, in every state (the guarded pointer itself is an object '
+         'kind: get, get_const, the source of copy and both sides of swap abort; init, set and the destination of copy re-stamp); histories that use only library functions '
          'keep every object well-formed and never hit the guard; a stray copy changes only the destination bytes, so the original '
          'behaves as before. The model is tied to the C code on every run by differential execution (entry point x position x '
          'state matrix, closure in a small scope, random histories) under ASan/UBSan with SIGABRT classification.',
